@@ -107,6 +107,10 @@ pub struct StreamModel {
     pub adapter: Adapter,
     /// index of the last emission consumed by next(): item index, or items.len() for SearchResultDone
     pub last_consumed: Option<usize>,
+    /// the search was abandoned through the stream's handle while it was Active
+    pub abandoned: bool,
+    /// harness adapter FailAfter(n): next() calls still handed up the chain
+    pub fail_left: Option<u32>,
 }
 
 pub fn synthetic(rc: u32) -> ResC {
@@ -130,17 +134,29 @@ impl StreamModel {
             timeout_ms,
             adapter,
             last_consumed: None,
+            abandoned: false,
+            fail_left: match adapter {
+                Adapter::FailAfter(n) => Some(n),
+                _ => None,
+            },
         })
     }
 
     /// Is there a planned emission the next `next()` can consume? (otherwise the call blocks)
     pub fn would_block(&self) -> bool {
-        self.state == SState::Active && self.cursor >= self.items.len() && self.done.is_none()
+        self.state == SState::Active && self.cursor >= self.items.len() && self.done.is_none() && !self.abandoned
     }
 
     pub fn next(&mut self) -> Ret {
         if self.state != SState::Active {
             return Ret::Item(None);
+        }
+        if let Some(left) = self.fail_left.as_mut() {
+            if *left == 0 {
+                self.state = SState::Error;
+                return Ret::Err(crate::world::ErrC::AdapterInit("harness adapter: rejected".into()));
+            }
+            *left -= 1;
         }
         loop {
             if self.cursor < self.items.len() {
@@ -164,7 +180,14 @@ impl StreamModel {
                 return Ret::Item(Some(item_expect(&it.op, &it.ctrls)));
             }
             // SearchResultDone
-            let d = self.done.as_ref().expect("model: next() would block");
+            if self.done.is_none() && self.abandoned {
+                // the routing entry is gone: the item channel is closed
+                self.state = SState::Error;
+                return Ret::Err(crate::world::ErrC::EndOfStream);
+            }
+            // (a script in which next() would wait forever is not one the generators write; the minimiser can
+            // produce one by dropping steps, and the run then ends at the watchdog)
+            let Some(d) = self.done.as_ref() else { return Ret::Skipped };
             if matches!(self.timeout_ms, Some(t) if d.gap_ms >= t) {
                 self.state = SState::Error;
                 return Ret::Err(crate::world::ErrC::Timeout);
